@@ -22,8 +22,13 @@ fn shared_lib_name() -> LibraryName {
     LibraryName(vec![LibraryNameElement::Identifier("shared".into()), LibraryNameElement::Identifier("lib".into())])
 }
 
-fn lib_text(value: i32) -> String {
-    format!("(define-library (shared lib) (export v get-v) (begin (define v {}) (define (get-v) v)))", value)
+fn lib_text(value: i32, macro_def: Option<&str>) -> String {
+    // instance A's version of the library may define a macro in its body: it must stay inside that library
+    format!(
+        "(define-library (shared lib) (export v get-v) (begin {} (define v {}) (define (get-v) v)))",
+        macro_def.unwrap_or(""),
+        value
+    )
 }
 
 #[derive(Clone, Debug)]
@@ -34,6 +39,8 @@ pub struct Pair {
     pub schedule: Vec<bool>,
     /// positions (in the schedule) before which a fresh instance is created and probed
     pub probes: Vec<usize>,
+    /// a define-syntax form inside the body of the library registered with instance A
+    pub a_lib_macro: Option<String>,
     pub labels: Vec<&'static str>,
 }
 
@@ -107,12 +114,20 @@ pub fn gen_pair(ch: &mut Chooser) -> Pair {
     let probes = (0..n_probes).map(|_| ch.below(schedule.len() + 1)).collect();
     labels.sort();
     labels.dedup();
-    Pair { a, b, schedule, probes, labels }
+    let a_lib_macro = if ch.chance(1, 3) {
+        labels.push("a-library-defines-syntax");
+        Some(ch.pick(MACROS).1.to_string())
+    } else {
+        None
+    };
+    labels.sort();
+    labels.dedup();
+    Pair { a, b, schedule, probes, labels, a_lib_macro }
 }
 
-fn new_instance(lib_value: i32) -> Result<Session, (String, String)> {
+fn new_instance(lib_value: i32, macro_def: Option<&str>) -> Result<Session, (String, String)> {
     let mut s = Session::stdlib()?.with_host().with_budget(Budget::GENEROUS);
-    if let Ok(f) = LibraryFactory::from_char_stream(&shared_lib_name(), lib_text(lib_value).chars()) {
+    if let Ok(f) = LibraryFactory::from_char_stream(&shared_lib_name(), lib_text(lib_value, macro_def).chars()) {
         s.it.register_library_factory(f);
     }
     Ok(s)
@@ -130,7 +145,7 @@ fn same(a: &Outcome, b: &Outcome) -> bool {
 /// B alone on a fresh thread
 fn run_alone(b: Vec<String>) -> Vec<Outcome> {
     sut::in_thread(move || {
-        let mut s = match new_instance(2) {
+        let mut s = match new_instance(2, None) {
             Ok(s) => s,
             Err((site, msg)) => return vec![Outcome::Panic { site, msg }],
         };
@@ -147,14 +162,14 @@ struct Interleaved {
 fn run_interleaved(p: Pair, skip_a_syntax: bool) -> Interleaved {
     sut::in_thread(move || {
         let mut out = Interleaved { b: vec![], instance_failures: vec![] };
-        let mut sa = match new_instance(1) {
+        let mut sa = match new_instance(1, p.a_lib_macro.as_deref()) {
             Ok(s) => s,
             Err((site, msg)) => {
                 out.instance_failures.push(format!("construct-{}", sut::panic_sig(&site, &msg)));
                 return out;
             }
         };
-        let mut sb = match new_instance(2) {
+        let mut sb = match new_instance(2, None) {
             Ok(s) => s,
             Err((site, msg)) => {
                 out.instance_failures.push(format!("construct-{}", sut::panic_sig(&site, &msg)));
@@ -164,7 +179,7 @@ fn run_interleaved(p: Pair, skip_a_syntax: bool) -> Interleaved {
         let (mut ia, mut ib) = (0, 0);
         for (k, take_a) in p.schedule.iter().enumerate() {
             if p.probes.contains(&k) {
-                match new_instance(3) {
+                match new_instance(3, None) {
                     Err((site, msg)) => out.instance_failures.push(format!("construct-{}", sut::panic_sig(&site, &msg))),
                     Ok(mut s) => {
                         let o = s.eval("(quote ok)");
